@@ -69,10 +69,13 @@ def main() -> None:
         }],
         "checks": checks,
         "not_applicable": na,
-        "notes": "Every check reads /repo's working tree on each run. Exit 0 = all obligations hold (KNOWN-FINDING lines for "
-                 "entries of known_findings.json); exit 1 + VIOLATION line = an unlisted obligation failed; exit 2 + "
-                 "ANALYSIS-ERROR = the analysis could not run (missing anchor, instance floor not met). The thorough tier "
-                 "adds an in-memory mutant self-test of the rules (evidence only).",
+        "notes": "Every check parses /repo's working tree on each run and never imports or executes it. Obligations are three-valued: "
+                 "holds / violated (a violating construct was positively identified) / UNDECIDED (the construct was rewritten into a "
+                 "shape the rule does not recognise; printed and counted in the evidence, never an alarm). Exit 0 = no violation "
+                 "(KNOWN-FINDING lines for entries of known_findings.json); exit 1 + VIOLATION line = an unlisted obligation is "
+                 "violated; exit 2 + ANALYSIS-ERROR = a public anchor of the property is gone or the analysis crashed. The thorough "
+                 "tier additionally replays, in memory, the rule module's mutants and the committed corpora under seeded/ and "
+                 "refactors/ (evidence about the checker itself; it never changes the exit code).",
     }
     (VERIF / "MANIFEST.json").write_text(json.dumps(manifest, indent=1) + "\n")
     print(f"MANIFEST.json: {len(checks)} checks, {len(na)} not applicable")
